@@ -24,7 +24,7 @@ type c03Scenario struct {
 
 func genC03(t *rapid.T) c03Scenario {
 	fan, _ := genFan(t, fanOpts{alwaysRpm: false})
-	path := rapid.IntRange(0, 9).Draw(t, "path")
+	path := rapid.IntRange(0, 11).Draw(t, "path")
 	sc := sim.LoopScenario{Fan: fan, Loop: genLoop(t, false), TickMs: rapid.SampledFrom([]int{50, 100, 200, 1000}).Draw(t, "tickMs"),
 		RpmPollMs: 1000, RpmWindow: rapid.SampledFrom([]int{1, 3, 10}).Draw(t, "window"), Law: sim.RpmLaw{Theta: 0, Rpm: 900}}
 	faultFrom := -1
@@ -52,6 +52,20 @@ func genC03(t *rapid.T) c03Scenario {
 		// cancellation after a history of cycles
 		sc.Stop.AtMs = -1
 		n := rapid.IntRange(1, 30).Draw(t, "n")
+		for i := 0; i < n; i++ {
+			sc.Steps = append(sc.Steps, sim.Step{Curve: rapid.IntRange(0, 255).Draw(t, "cv")})
+		}
+	case path >= 10:
+		// the stop request arrives while a control cycle is in flight (the harness owns that schedule:
+		// the cancellation is issued from inside a device write of the cycle, which is then held)
+		sc.Stop.AtMs = -1
+		sc.Stop.MidTick = true
+		sc.Stop.HoldMs = rapid.SampledFrom([]int{0, 1, 20, 300}).Draw(t, "holdMs")
+		sc.Fan.NoRpm = false
+		if sc.Fan.Kind == "cmd" {
+			sc.Fan.Kind = "file"
+		}
+		n := rapid.IntRange(1, 10).Draw(t, "n")
 		for i := 0; i < n; i++ {
 			sc.Steps = append(sc.Steps, sim.Step{Curve: rapid.IntRange(0, 255).Draw(t, "cv")})
 		}
@@ -159,6 +173,8 @@ func runC03(t *testing.T, sc c03Scenario) verdict {
 		phase = "control-error"
 	case sc.Loop.Fan.NoStored:
 		phase = "analysis"
+	case sc.Loop.Stop.MidTick:
+		phase = "mid-tick"
 	case sc.Loop.Stop.AtMs >= 0 && sc.Loop.Stop.AtMs < 2400:
 		phase = "startup-wait"
 	case sc.Loop.Stop.AtMs >= 0 && sc.Loop.Stop.AtMs <= 3400:
